@@ -4,6 +4,7 @@ import H2V.Lemmas.ConnDrainPTurn
 import H2V.Lemmas.ConnDrainPParked
 import H2V.Lemmas.ConnDrainPReach
 import H2V.Lemmas.ConnDrainPFindings
+import H2V.Lemmas.ConnDrainPCapF
 /-
   C06 (progress, no lost wake-up) — the gaps left open by `H2V/Props/C06.lean` (ConnWakeP family):
   what a completed poll of the connection leaves behind, and who is woken when.
@@ -216,6 +217,44 @@ example : DReach { (Conn.clientPoll 10 (Conn.init {})).1 with
   .handle (.clientPoll 10 (.client {} (by decide) (by intro _ h; cases h) (by intro _ h; cases h)))
     (.sendRequest _ false [] true none)
 
+/-- **The `pending_capacity` clause of target 1, as an invariant over every history.**  In every connection state
+    reachable from a fresh connection (`DReach`: polls, handle calls with any arguments, transport events, user
+    calls — see the previous theorem), not only after a completed poll: a stream is linked in
+    `prioritize.pending_capacity` only while the connection-level send window has NOTHING left to hand out
+    (`flow.available() == 0`).  So a stream waiting for capacity really cannot be given anything; what it waits
+    for is a connection WINDOW_UPDATE (or capacity handed back by another stream), and both go through
+    `assign_connection_capacity`, which hands out until the window is used up or nobody waits (ConnFlowP).
+    Proof: `KInv` (= ConnFlowP's `SafeInv` ∧ `ReqOk` ∧ this clause) is kept by every function of the stream layer
+    (ConnDrainPCapA…E, ≈150 functions) and is part of `CInv`.  No hypothesis besides reachability — in particular
+    no "no panic recorded". -/
+theorem pending_capacity_only_while_connection_window_is_used_up (c : Conn) (h : DReach c) :
+    c.streams.prio.pendingCapacity = [] ∨ c.streams.prio.flow.available.val = 0 :=
+  dreach_capacity h
+
+/-- non-vacuity: a reachable state in which a stream DOES wait in `pending_capacity` (two requests, a poll,
+    `send_data` of 65535 octets on the first stream, of 10 octets on the second; see ConnDrainPCapF.lean) -/
+example : DReach PC.c5 ∧ PC.c5.streams.prio.pendingCapacity = [1] ∧ PC.c5.streams.prio.flow.available.val = 0 :=
+  ⟨PC.c5_reach, PC.c5_waits.2.1, PC.c5_waits.2.2⟩
+
+/-- **Target 1, all clauses that are true, in one statement.**  From any reachable connection state,
+    `Connection::poll` (server/proto or client flavour) answering `Pending` with no panic recorded leaves the
+    connection task parked (`PollParked`: write waker held by the transport, or read waker ∧ `Actions.task` ∧ every
+    GOAWAY / PONG / SETTINGS / refusal slot empty ∧ `pending_send = []` ∧ no WINDOW_UPDATE owed ∧ writer flushed) AND
+    nobody in `pending_capacity` could be given anything.  The one clause of target 1 that is missing,
+    "`pending_open` empty or no slot free", is false (`pending_open_leftover_counterexample`). -/
+theorem connection_poll_pending_leaves_nothing_writable_or_assignable (n : Nat) (c c' : Conn) (h : DReach c)
+    (hp : c'.streams.panicked = none) :
+    (Conn.protoPoll n c = (c', .pending) →
+      PollParked c' ∧ (c'.streams.prio.pendingCapacity = [] ∨ c'.streams.prio.flow.available.val = 0)) ∧
+    (Conn.clientPoll n c = (c', .pending) →
+      PollParked c' ∧ (c'.streams.prio.pendingCapacity = [] ∨ c'.streams.prio.flow.available.val = 0)) :=
+  ⟨fun hq => ⟨(dreach_poll_pending_parked n h hp).1 hq, by have := dreach_capacity (.protoPoll n h); rwa [hq] at this⟩,
+   fun hq => ⟨(dreach_poll_pending_parked n h hp).2 hq, by have := dreach_capacity (.clientPoll n h); rwa [hq] at this⟩⟩
+
+/-- non-vacuity: the witness state above is polled again and the poll is `Pending` without a panic -/
+example : DReach PC.c5 ∧ (Conn.clientPoll 10 PC.c5).2 matches .pending ∧
+    (Conn.clientPoll 10 PC.c5).1.streams.panicked = none := ⟨PC.c5_reach, by decide⟩
+
 end H2V.Props.C06Drain
 
 #print axioms H2V.Props.C06Drain.poll_next_pending_registers_read_waker
@@ -230,3 +269,5 @@ end H2V.Props.C06Drain
 #print axioms H2V.Props.C06Drain.connection_poll_pending_means_parked_and_drained
 #print axioms H2V.Props.C06Drain.pending_open_leftover_counterexample
 #print axioms H2V.Props.C06Drain.no_lost_wakeup_for_connection_task_in_every_history
+#print axioms H2V.Props.C06Drain.pending_capacity_only_while_connection_window_is_used_up
+#print axioms H2V.Props.C06Drain.connection_poll_pending_leaves_nothing_writable_or_assignable
